@@ -234,6 +234,7 @@ def run(ctx):
                   "positional emplace does not move the tail one slot to the right before filling the position: it overwrites the element at the position instead of inserting before it", f)
     # ---- re-evaluate the C06 rules that are also necessary for sequence behaviour (append family, manual memory)
     sub = type(ctx)(ctx.prop, ctx.prog, ctx.tier)
+    sub._sharing = True
     C06.run(sub)
     n = 0
     for o in sub.obs:
